@@ -1,8 +1,12 @@
 """C04 — the DRO reformulation is exact: reported optimum = true inf-sup expectation.
 
-Theorems (Lean, RsomeV/Props/C04.lean): the sample-average special case and the single-scenario special case are exact
-(`dro_exact_saa`, `dro_exact_single`), and for LP-class data the compiled constraint set is the dual of the moment
-problem (`dro_dual_shape`), exact whenever that problem has no duality gap (the missing hypothesis is explicit).
+Theorems (Lean, RsomeV/Props/C04.lean, C04Compiled.lean): the converse of C03's `dro_sound` for polytope supports and a
+polyhedral lifted ambiguity set, from Farkas' lemma (`affine_farkas_cols`): `dro_complete_vertex` (worst case over vertex
+distributions <= 0  =>  multipliers alpha, beta with (H2) at the vertices and (H1) on the whole lifted set exist),
+`hull_of_vertices` + `maxAffine_convex` ((H2) on the hulls for maxima of affine pieces), `dro_exact_vertex` (the iff),
+`dro_sup_is_vertex_sup` / `vertex_dist_is_dist` (sup over all distributions on the polytopes = sup over vertex
+distributions), `dro_exact_compiled` (the compiled first-stage row over the model of mix_support is feasible iff (H1) holds
+on the whole lifted set; `C02.rc_exact_lp` composed with the mix_support model) and `dro_exact_end_to_end`.
 Tie: mix_support / rule_var correspondences (C03, C13).  Search: the inf-sup problem is solved independently by cutting
 planes over vertex-supported distributions (master LP over the declared event-wise affine rules, worst-case distribution
 oracle) and compared with the reported optimum; SAA instances against an independent scenario LP; single-scenario dro
@@ -16,12 +20,17 @@ from harness import gen as G
 from harness.props import c03
 
 THEOREMS = {
+    'RsomeV.Props.C04': ['RsomeV.C04.dro_complete_vertex', 'RsomeV.C04.hull_of_vertices', 'RsomeV.C04.maxAffine_convex',
+                         'RsomeV.C04.vtxConvex_of_convex', 'RsomeV.C04.dro_exact_vertex', 'RsomeV.C04.dro_sup_is_vertex_sup',
+                         'RsomeV.C04.vertex_dist_is_dist'],
+    'RsomeV.Props.C04Compiled': ['RsomeV.C04.dro_complete_vertex_lift', 'RsomeV.C04.feas_iff_admL', 'RsomeV.C04.dro_exact_compiled',
+                                 'RsomeV.C04.dro_exact_end_to_end'],
     'RsomeV.Props.C02': ['RsomeV.C02.rc_exact_lp', 'RsomeV.C02.rc_exact_conic_partial'],
     'RsomeV.Props.C08': ['RsomeV.C08.lp_dual_strong'],
 }
 RULE = c03.RULE + "; plus SAA instances (singleton supports, fixed probabilities) and single-scenario models mirrored as ro models"
 TRUSTED = c03.TRUSTED
-ASSUMPTIONS = c03.ASSUMPTIONS + ["moment-problem strong duality is not proved in Lean (named hypothesis)"]
+ASSUMPTIONS = c03.ASSUMPTIONS + ["exactness is proved for polytope supports and polyhedral ambiguity sets; conic ambiguity sets need conic strong duality (named hypothesis)"]
 
 
 def worst_dist(d, xs, y0, Y, integrand='obj'):
